@@ -172,7 +172,7 @@ class Attempt:
                 self.status = int(p[1])
             elif p[0] == "rh":
                 self.rh.append((p[1], p[2]))
-            elif p[0] == "w":
+            elif p[0] in ("w", "wc", "wn", "ws", "wf"):  # how the handler writes: Write, io.Copy, io.CopyN, io.WriteString, fmt.Fprintf
                 l, s2 = p[1].split(".")
                 self.writes.append((int(l), int(s2)))
 
@@ -519,7 +519,9 @@ def gen_attempt(rng, c, reqlen, focus, will_retry_bias, hkeys=()):
         else:
             l = _pick_size(rng, marks, 700)
         tot += l
-        f.append("w:%d.%d" % (l, rng.randint(0, 99999)))
+        # io.Copy/io.CopyN move at most 32 KiB per Write and make no call at all for 0 bytes: only where one call = one Write
+        how = rng.choice(["w", "w", "w", "wc", "wc", "wn", "ws", "wf"]) if 0 < l <= 30000 else rng.choice(["w", "w", "ws", "wf"])
+        f.append("%s:%d.%d" % (how, l, rng.randint(0, 99999)))
     if rng.random() < 0.05:
         f.append("fl")
     if rng.random() < 0.04:
